@@ -264,7 +264,9 @@ class Ev(object):
         self.raised = []              # [(State, exc term, site)]
         self.depth = 0
         self.maxdepth = 14
-        self.next_oid = [1]
+        if not hasattr(world, "_next_oid"):
+            world._next_oid = [1]
+        self.next_oid = world._next_oid      # one allocator per World: object ids never collide
         self.continues = []           # paths that reached the end of a loop body (loop_mode='once')
         self.unfold_once = set()      # quals of recursive functions to inline at their outermost call only
         self.active = []              # quals of the functions being inlined (call stack)
@@ -795,11 +797,21 @@ class Ev(object):
             for s2, args in self._seq(n.args, env, s1):
                 kwn = [k.arg for k in n.keywords]
                 for s3, kwv in self._seq([k.value for k in n.keywords], env, s2):
-                    if any(k is None for k in kwn) or any(is_app(a, "star") for a in args):
+                    kws = []
+                    opaque_star = any(is_app(a, "star") for a in args)
+                    for k, v in zip(kwn, kwv):
+                        if k is None:
+                            if isinstance(v, DictV) and all(isinstance(x, str) for x in v.items):
+                                kws.extend(v.items.items())     # **{...} with known keys
+                            else:
+                                opaque_star = True
+                        else:
+                            kws.append((k, v))
+                    if opaque_star:
                         s3.approx.append((site, "star-args"))
                         res.append((s3, App("call*", (f,) + tuple(args) + tuple(kwv))))
                         continue
-                    for o in self.call(f, args, tuple(zip(kwn, kwv)), s3, site):
+                    for o in self.call(f, args, tuple(kws), s3, site):
                         res.append((o.state, o.value))
         return res
 
@@ -983,22 +995,31 @@ class Ev(object):
     def bind_args(self, f, args, kw, st, site):
         """-> dict name->term, or None (after recording a TypeError)."""
         a = f.node.args
-        if a.vararg or a.kwarg or a.posonlyargs:
-            raise AnalysisError("%s:%d: *args/**kwargs/pos-only parameters are not supported (%s)"
-                                % (f.mod.relpath, f.node.lineno, f.qual))
-        names = [x.arg for x in a.args]
+        posonly = [x.arg for x in a.posonlyargs]
+        names = posonly + [x.arg for x in a.args]
         konly = [x.arg for x in a.kwonlyargs]
         loc = {}
+        extra_pos = ()
         if len(args) > len(names):
-            self.do_raise(st, "TypeError", site, "too many positional arguments for %s" % f.qual)
-            return None
+            if a.vararg is None:
+                self.do_raise(st, "TypeError", site, "too many positional arguments for %s" % f.qual)
+                return None
+            extra_pos = tuple(args[len(names):])
         for nme, v in zip(names, args):
             loc[nme] = v
+        extra_kw = []
         for k, v in kw:
-            if k in loc or (k not in names and k not in konly):
+            if k in loc or k in posonly or (k not in names and k not in konly):
+                if a.kwarg is not None and k not in loc:
+                    extra_kw.append((k, v))
+                    continue
                 self.do_raise(st, "TypeError", site, "bad keyword %s for %s" % (k, f.qual))
                 return None
             loc[k] = v
+        if a.vararg is not None:
+            loc[a.vararg.arg] = TupleV(extra_pos, "tuple")
+        if a.kwarg is not None:
+            loc[a.kwarg.arg] = DictV(extra_kw)
         denv = {"locals": {}, "mod": f.mod, "closure": f.closure, "fname": f.qual}
         nd = len(a.defaults)
         for nme, d in zip(names[len(names) - nd:], a.defaults):
@@ -1021,7 +1042,8 @@ class Ev(object):
         if loc is None:
             return []
         a = f.node.args
-        order = [x.arg for x in a.args] + [x.arg for x in a.kwonlyargs]
+        order = [x.arg for x in a.posonlyargs] + [x.arg for x in a.args] + [x.arg for x in a.kwonlyargs] \
+            + ([a.vararg.arg] if a.vararg else []) + ([a.kwarg.arg] if a.kwarg else [])
         ordered = tuple(loc[n] for n in order)
         mode = "inline" if force_inline else self.policy.decide(f, ordered)
         if f.qual in self.unfold_once:
